@@ -114,12 +114,13 @@ type World struct {
 	merger, persister *vs.Thread
 	mains             map[int]bool // thread ids that are never auto-run as helpers
 
-	gateFlag   bool // persister may leave the gate
-	gateMode   int  // 1 success, 2 fail
-	inGate     bool
-	gateHigher string
-	markAcks   bool // record an acknowledgement marker in the file-operation trace whenever Persist returns success
-	gateOff    bool // teardown: gate is transparent
+	gateFlag       bool // persister may leave the gate
+	gateMode       int  // 1 success, 2 fail
+	inGate         bool
+	gateHigher     string
+	fewCloseOrders bool // C15 quick tier: only two close orders per state
+	markAcks       bool // record an acknowledgement marker in the file-operation trace whenever Persist returns success
+	gateOff        bool // teardown: gate is transparent
 
 	ll        map[string]string
 	llUpdates []llUpdate
